@@ -2409,7 +2409,16 @@ class IndicatorSumConstraint(Functional):
     def _call(self, x):
         """Return ``self(x)``."""
 
-        if abs(x.ufuncs.sum() / self.sum_value - 1) <= self.sum_rtol:
+        if self.sum_value == 0:
+            # No relative comparison with 0 possible. The rounding error of
+            # the sum is relative to the magnitude of the entries.
+            scale = x.ufuncs.absolute().ufuncs.sum()
+            is_feasible = abs(x.ufuncs.sum()) <= self.sum_rtol * scale
+        else:
+            is_feasible = (abs(x.ufuncs.sum() / self.sum_value - 1) <=
+                           self.sum_rtol)
+
+        if is_feasible:
             return 0
         else:
             return np.inf
